@@ -107,6 +107,7 @@ type refEnc struct {
 	tamperPacket  func(n int, final bool, ct []byte) []byte // change a ciphertext after the authenticators were computed
 	finalOverride map[int]bool
 	noTerminator  bool
+	authShape     func(al []*mpNode) []*mpNode // reshape the authenticator list of each packet
 }
 
 func (p *refEnc) macKey(i int, hh []byte) []byte {
@@ -208,6 +209,9 @@ func (p *refEnc) seal() []byte {
 		var al []*mpNode
 		for i := range p.rcpts {
 			al = append(al, nBin(hmac32(macKeys[i], ph)))
+		}
+		if p.authShape != nil {
+			al = p.authShape(al)
 		}
 		if p.tamperPacket != nil {
 			ct = p.tamperPacket(n, final, ct)
